@@ -317,7 +317,10 @@ func Run(tier string) int {
 	}, func(i int, text string) {
 		rep.Report(mc.Violation{Symptom: "panic", Key: queries[i].text, Msg: queries[i].text + ": " + text})
 	})
+	subCases := subQueryCaptures(rep, w, &evals, &nontrivial)
 	cv := rep.Coverage
+	cv["sub_query_capture_cases"] = subCases
+	cv["sub_query_capture_rule"] = "@sub:cdata.R:\"capture\" [-]cdata.R:\"...@sub:v@...\" for R in {none, conv1}: a stream is selected iff SOME stream whose client data (in R) matches the capture expression yields a value v (group of the leftmost-first match) for which the plain scan of the stream's client data finds (negated: does not find) the expression with v substituted as literal text"
 	cv["evaluations"] = evals
 	cv["distinct_nontrivial"] = nontrivial
 	cv["states"] = evals
@@ -367,4 +370,123 @@ func descReps(r *ref.Rec) string {
 	}
 	sort.Strings(k)
 	return strings.Join(k, " ")
+}
+
+
+// subQueryCaptures: data filters whose expression takes a value captured in a sub-query, plain and negated, each on
+// one representation.  The meaning is existential over the streams of the sub-query (the one the in-app help gives
+// for variables of sub-queries): see the rule text in the evidence.
+func subQueryCaptures(rep *mc.Reporter, w *world, evals, nontrivial *int64) int {
+	clientBuf := func(r *ref.Rec, conv string) ([]byte, bool) {
+		key := conv
+		if conv == "none" {
+			key = ""
+		}
+		ch, ok := r.Reps[key]
+		if !ok {
+			return nil, false
+		}
+		var b []byte
+		for _, c := range ch {
+			if c.Dir == ref.DirC2S {
+				b = append(b, c.Data...)
+			}
+		}
+		return b, true
+	}
+	n := 0
+	for _, conv := range []string{"none", "conv1"} {
+		for _, capRe := range []string{"^(?P<v>ab|ba)$", "^(?P<v>a.)", "(?P<v>-[ab])", "^(?P<v>a-?)$"} {
+			cre := binaryregexp.MustCompile(capRe)
+			values := map[string]bool{}
+			for _, r := range w.recs {
+				b, ok := clientBuf(r, conv)
+				if !ok {
+					continue
+				}
+				if loc := cre.FindSubmatchIndex(b); loc != nil && loc[2] >= 0 {
+					values[string(b[loc[2]:loc[3]])] = true
+				}
+			}
+			for _, use := range []string{"@sub:v@", "^@sub:v@", "@sub:v@$", "a@sub:v@", "^@sub:v@$"} {
+				for _, neg := range []string{"", "-"} {
+					n++
+					text := fmt.Sprintf("@sub:cdata.%s:%s %scdata.%s:\"%s\"", conv, quote(capRe), neg, conv, use)
+					bad := func(sym, f string, a ...any) {
+						rep.Report(mc.Violation{Symptom: sym, Key: text, Msg: fmt.Sprintf("query %s: ", text) + fmt.Sprintf(f, a...), Replay: map[string]any{"query": text, "family": "sub-query captures"}})
+					}
+					q, err := query.Parse(text)
+					if err != nil {
+						bad("parse.error", "%v", err)
+						continue
+					}
+					var res []*binaryregexp.Regexp
+					for v := range values {
+						res = append(res, binaryregexp.MustCompile(strings.ReplaceAll(use, "@sub:v@", "(?:"+binaryregexp.QuoteMeta(v)+")")))
+					}
+					want := map[uint64]bool{}
+					for id, r := range w.recs {
+						b, ok := clientBuf(r, conv)
+						if !ok {
+							continue // no such representation: neither the filter nor its negation can be judged on it
+						}
+						for _, re := range res {
+							if re.Match(b) != (neg == "-") {
+								want[uint64(id)] = true
+								break
+							}
+						}
+					}
+					got := map[uint64]bool{}
+					var streams []*index.Stream
+					if pt := mc.Try(func() {
+						streams, _, _, err = index.SearchStreams(context.Background(), []*index.Reader{w.reader}, nil, q.ReferenceTime, q.Conditions, nil, []query.Sorting{{Key: query.SortingKeyID}}, 0, 0, nil, w.convs, false)
+					}); pt != "" {
+						bad("search.panic", "%s", pt)
+						continue
+					}
+					if err != nil {
+						bad("search.error", "%v", err)
+						continue
+					}
+					for _, st := range streams {
+						got[st.ID()] = true
+					}
+					var missing, extra []uint64
+					for id := range want {
+						if !got[id] {
+							missing = append(missing, id)
+						}
+					}
+					for id := range got {
+						if !want[id] {
+							// a stream without the representation: what a negated filter says about it is not claimed
+							if _, ok := clientBuf(w.recs[id], conv); !ok {
+								continue
+							}
+							extra = append(extra, id)
+						}
+					}
+					sort.Slice(missing, func(i, j int) bool { return missing[i] < missing[j] })
+					sort.Slice(extra, func(i, j int) bool { return extra[i] < extra[j] })
+					var vs []string
+					for v := range values {
+						vs = append(vs, v)
+					}
+					sort.Strings(vs)
+					if len(missing) != 0 {
+						bad("data.not-selected", "the sub-query yields the values %q; %d streams that the plain scan selects are not returned, e.g. stream %d (representations %s)", vs, len(missing), missing[0], descReps(w.recs[missing[0]]))
+					}
+					if len(extra) != 0 {
+						bad("data.wrongly-selected", "the sub-query yields the values %q; %d streams are returned that the plain scan rejects, e.g. stream %d (representations %s)", vs, len(extra), extra[0], descReps(w.recs[extra[0]]))
+					}
+					atomic.AddInt64(evals, 1)
+					if len(want) != 0 && len(want) != len(w.recs) {
+						atomic.AddInt64(nontrivial, 1)
+					}
+				}
+			}
+		}
+	}
+	return n
 }
